@@ -663,6 +663,33 @@ def apalache_inductive():
     return info
 
 
+def apalache_refinement(tier):
+    """C01 / C07 (and the C05 part of every step) beyond TLC's capacities: Apalache shows, for every capacity
+    up to 24 and ANY slot contents satisfying the representation invariant, that each slot-level step of the
+    crate (scan lookup, find-or-append, swap-remove, pop, clear, every iteration of retain's loop) changes the
+    abstract content exactly as the dictionary operation does and returns what the dictionary returns
+    (spec/MapRef.tla: action invariant Refines); the thorough tier also shows that the invariant - including
+    retain's loop invariant - is inductive."""
+    d = os.path.join(WORK, "apalache-ref")
+    shutil.rmtree(d, ignore_errors=True)
+    os.makedirs(d)
+    shutil.copy(os.path.join(SPEC, "MapRef.tla"), d)
+    info = {"module": "spec/MapRef.tla", "capacities": "0..24 (slot sequences generated with Gen(24), keys 0..30, any retain predicate)", "runs": []}
+    runs = [["--init=Init", "--inv=IndInv", "--length=0"], ["--init=IndInit", "--inv=Refines", "--length=1"]]
+    if tier == "thorough":
+        runs.append(["--init=IndInit", "--inv=IndInv", "--length=1"])
+    for args in runs:
+        cmd = ["timeout", "2400", "apalache-mc", "check", "--cinit=ConstInit"] + args + ["MapRef.tla"]
+        t0 = time.time()
+        p = sh(cmd, cwd=d, timeout=2500, check=False)
+        ok = "The outcome is: NoError" in p.stdout
+        info["runs"].append({"cmd": " ".join(cmd[2:]), "outcome": "NoError" if ok else "ERROR", "wall_s": round(time.time() - t0, 1)})
+        if not ok:
+            raise ToolError("Apalache does not confirm the one-step refinement (%s):\n%s" % (" ".join(args), p.stdout[-1500:]))
+    shutil.rmtree(d, ignore_errors=True)
+    return info
+
+
 def tlaps_proof():
     """C05 / C03, unbounded: TLAPS machine-checks that the representation invariant (len <= Cap, keys
     pairwise different) is inductive for ANY capacity, key universe and slot-sequence length
@@ -775,6 +802,8 @@ def run_check(pid, tier, seed):
         summary["tlaps_inductive_invariant"] = tlaps_proof()
     if pid in ("C13", "C18"):
         summary["apalache_disjoint"] = apalache_disjoint(tier)
+    if pid in ("C01", "C07"):
+        summary["apalache_refinement"] = apalache_refinement(tier)
     gate = GATES.get(pid, {pid, "CRASH"}) | {"SPEC"}
     # (a rejected trace event is attributed exactly; the widened gates apply to replayed transitions only;
     #  but a rejection that no check running this very trace job would report is never dropped silently)
@@ -821,6 +850,7 @@ def write_evidence(pid, tier, seed, summary, nviol, wall, others):
             "nostd_probe": summary.get("nostd_probe"), "sweep": summary.get("sweep"), "element_shapes_edges": summary.get("element_shapes"),
             "apalache_inductive_invariant": summary.get("apalache_inductive_invariant"),
             "apalache_disjoint": summary.get("apalache_disjoint"),
+            "apalache_refinement": summary.get("apalache_refinement"),
             "tlaps_inductive_invariant": summary.get("tlaps_inductive_invariant"),
             "explanation": "TLC exhaustively explored the stated constants checking the invariants in every state and "
                            "emitted every (state, operation) transition; each emitted transition was replayed against the real crate "
@@ -849,7 +879,7 @@ def main():
             for f in sorted(os.listdir(SPEC)):
                 if f == "MapProof.tla":      # a TLAPS proof module: parsed and checked by tlapm inside the C05 / C03 checks
                     continue
-                if f in ("MapInd.tla", "MapDisj.tla"):      # typed for Apalache (EXTENDS Apalache): checked by its own type checker
+                if f in ("MapInd.tla", "MapDisj.tla", "MapRef.tla"):      # typed for Apalache (EXTENDS Apalache): checked by its own type checker
                     p = sh(["timeout", "300", "apalache-mc", "typecheck", f], cwd=SPEC, timeout=400, check=False)
                     shutil.rmtree(os.path.join(SPEC, "_apalache-out"), ignore_errors=True)
                     if "Type checker [OK]" not in p.stdout and "EXITCODE: OK" not in p.stdout:
